@@ -330,7 +330,7 @@ def add_dataframe_to_tree_by_path(
     )
 
     root_node = tree.root
-    for row in data.to_dict(orient="index").values():
+    for row in data.to_dict(orient="records"):
         node_attrs = assertions.filter_attributes(
             row, omit_keys=["name", path_col], omit_null_values=True
         )
@@ -1011,7 +1011,10 @@ def dataframe_to_tree(
     root_node_data = data[data[path_col] == root_name]
     if len(root_node_data):
         root_node_kwargs = list(
-            root_node_data[attribute_cols].to_dict(orient="index").values()
+            root_node_data[attribute_cols]
+            .reset_index(drop=True)
+            .to_dict(orient="index")
+            .values()
         )[0]
         root_node_kwargs = assertions.filter_attributes(
             root_node_kwargs, omit_keys=["name", path_col], omit_null_values=True
@@ -1020,7 +1023,7 @@ def dataframe_to_tree(
     else:
         root_node = node_type(root_name)
 
-    for row in data.to_dict(orient="index").values():
+    for row in data.to_dict(orient="records"):
         node_attrs = assertions.filter_attributes(
             row, omit_keys=["name", path_col], omit_null_values=True
         )
@@ -1147,7 +1150,7 @@ def dataframe_to_tree_by_relation(
         """
         child_rows = data[data[parent_col] == parent_node.node_name]
 
-        for row in child_rows.to_dict(orient="index").values():
+        for row in child_rows.to_dict(orient="records"):
             child_node = node_type(**_retrieve_attr(row))
             child_node.parent = parent_node
             _recursive_add_child(child_node)
@@ -1155,7 +1158,7 @@ def dataframe_to_tree_by_relation(
     # Create root node attributes
     root_row = data[data[child_col] == root_name]
     if len(root_row):
-        row = list(root_row.to_dict(orient="index").values())[0]
+        row = root_row.to_dict(orient="records")[0]
         root_node = node_type(**_retrieve_attr(row))
     else:
         root_node = node_type(root_name)
